@@ -444,6 +444,13 @@ def _run(env: Env) -> Outcome:
         all_ops += ["reset"] + res["ops"]
         all_impl += ["ok"] + res["impl"]
 
+    # the most direct statement of the property first (the runner reports the first unlisted one)
+    prio = ["C30/bound_exceeded", "C30/step_outlives_run", "C30/instances_interfere", "C30/started_run_never_executed", "C30/fifo_violated",
+            "C30/waits_with_free_permit", "C30/permit_leak", "C30/unlimited_run_waits", "C30/conservation", "C30/registry_lost_live_semaphore"]
+    out.violations.sort(key=lambda v: (prio.index(v.signature) if v.signature in prio else len(prio),
+                                       1 if any(o[0] == "mk" and o[2] == 0 for o in v.replay.get("ops", [])) else 0,
+                                       len(json.dumps(v.replay))))
+
     # ---- K1 correspondence (one driver batch)
     try:
         mo = Driver("runlimit").run(all_ops)
